@@ -67,6 +67,9 @@ func (e *Engine) runCLI(spec *world.TaskSpec, out *tasks.Outcome) (res CLIResult
 		verifrt.ArgsFn, verifrt.OpenFn = nil, nil
 		if r := recover(); r != nil {
 			if x, ok := r.(exitSentinel); ok {
+				if e.running != nil {
+					e.running.exiting = false
+				}
 				res.Exit = x.code
 				res.Stdout, res.Stderr = e.stdout.String(), e.stderr.String()
 				return
